@@ -7,14 +7,17 @@ VARIABLE scn
 Gating == {<<>>, <<"ok1">>, <<"ok1", "exit1">>, <<"ok2", "ok0", "ok1">>, <<"missing", "ok1">>, <<"replykill", "ok1">>}
 \* dup: the first source file is listed twice (a DuplicateFile warning is recorded while the files are resolved - before
 \* anything is parsed; like every warning it must change neither the gate nor the exit status)
-GatingScenarios == [cls : Classes, errfile : {1, 2}, dry : BOOLEAN, allow : BOOLEAN, outdir : {"absent", "given"},
+GatingScenarios == [cls : Classes \ {"big"}, errfile : {1, 2}, dry : BOOLEAN, allow : BOOLEAN, outdir : {"absent", "given"},
                     gens : Gating, k : {0}, dup : BOOLEAN]
 GenLists == UNION {[1..n -> FaultBehs] : n \in 1..MaxGens}
 FaultScenarios == [cls : {"clean"}, errfile : {1}, dry : {FALSE}, allow : {FALSE}, outdir : OutDirs, gens : GenLists, k : {0}, dup : {FALSE}]
 \* a valid reply cut at every byte
 TruncScenarios == [cls : {"clean"}, errfile : {1}, dry : {FALSE}, allow : {FALSE}, outdir : {"given"},
                    gens : {<<"truncat">>, <<"ok1", "truncat">>}, k : 0..TruncLen, dup : {FALSE}]
-Init == scn \in (CASE Family = "gating" -> GatingScenarios [] Family = "faults" -> FaultScenarios [] OTHER -> TruncScenarios)
+\* a request larger than a pipe buffer, and a generator that closes its stdin and floods its stdout: no deadlock
+FloodScenarios == [cls : {"big"}, errfile : {1}, dry : {FALSE}, allow : {FALSE}, outdir : {"given"},
+                   gens : {<<"closeflood">>, <<"closeflood", "ok1">>, <<"ok1", "closeflood">>, <<"ok1">>, <<"noread", "ok1">>}, k : {0}, dup : {FALSE}]
+Init == scn \in (CASE Family = "gating" -> GatingScenarios [] Family = "faults" -> FaultScenarios [] Family = "flood" -> FloodScenarios [] OTHER -> TruncScenarios)
 Next == UNCHANGED scn
 Emit == PrintT(<<"CASE", ToJson(scn)>>)
 ====================================================================================================
